@@ -5,6 +5,8 @@ case "$where" in
   demo) demo="cd _mutants/demo && cargo test --offline --test m${k}_demo" ;;
   vm)   demo="cp _mutants/m${k}_demo.rs vm/tests/m${k}_demo.rs && cargo test -p pest_vm --test m${k}_demo --offline; rc=\$?; rm -f vm/tests/m${k}_demo.rs; exit \$rc" ;;
   meta) demo="mkdir -p meta/tests && cp _mutants/m${k}_demo.rs meta/tests/m${k}_demo.rs && cargo test -p pest_meta --test m${k}_demo --offline; rc=\$?; rm -rf meta/tests; exit \$rc" ;;
+  grammars) demo="cp _mutants/m${k}_demo.rs grammars/tests/m${k}_demo.rs && cargo test -p pest_grammars --test m${k}_demo --offline; rc=\$?; rm -f grammars/tests/m${k}_demo.rs; exit \$rc" ;;
+  dbg) demo="mkdir -p debugger/tests && cp _mutants/m${k}_demo.rs debugger/tests/m${k}_demo.rs && cargo test -p pest_debugger --test m${k}_demo --offline; rc=\$?; rm -rf debugger/tests; exit \$rc" ;;
   pest) demo="cp _mutants/m${k}_demo.rs pest/tests/m${k}_demo.rs && cargo test -p pest --features pretty-print --test m${k}_demo --offline; rc=\$?; rm -f pest/tests/m${k}_demo.rs; exit \$rc" ;;
 esac
 echo "$demo" > /tmp/confirm4-$a-m$k.cmd
